@@ -9,6 +9,7 @@ pub mod ct;
 pub mod pool;
 pub mod pset;
 pub mod mutate;
+pub mod ext_g1;
 pub mod ext_g2;
 pub mod ext_g5;
 pub mod ext_g6;
